@@ -1,0 +1,51 @@
+//go:build verif
+
+// Machine-checked contracts for this package (guard: build tag `verif`; this file contains comments only).
+// Read by /verif/bin/govc: each `//@ unit` section is one verification unit (the functions matching `filter`,
+// verified against the contracts of the section; callees are used through their contracts only).
+
+package browse
+
+//@ unit browse_redirect props=C02 filter=`browse\.Browse\)\.ServeHTTP$`
+//@ extern invoke:(github.com/tmpim/casket/caskethttp/httpserver.Handler).ServeHTTP
+//@ extern (github.com/tmpim/casket/caskethttp/httpserver.Path).Matches
+//@   pure
+//@ func (Browse).ServeListing
+//@ extern invoke:(net/http.FileSystem).Open
+//@   ensures result1 == nil ==> result0 != nil
+//@ extern invoke:(net/http.File).Stat
+//@   ensures result1 == nil ==> result0 != nil
+
+//@ func (Browse).ServeHTTP
+//@   requires r != nil && r.URL != nil && len(r.URL.Path) >= 1 && r.URL.Path[0] == '/'
+//@   requires forall(k, 0, len(b.Configs), b.Configs[k].Fs.Root != nil)
+//@   at call net/http.Redirect assert [redirect_starts_with_slash] len(u.Path) >= 1 && u.Path[0] == '/'
+//@   at call net/http.Redirect assert [redirect_same_origin] len(u.Path) >= 2 ==> u.Path[1] != '/'
+//@   loop 1 invariant 0 <= #i && #i <= len(b.Configs) && bc == nil
+
+//@ unit directory_listing props=C02 filter=`browse\.directoryListing$`
+//@ extern invoke:(io/fs.FileInfo).Name
+//@   pure
+//@ extern invoke:(io/fs.FileInfo).IsDir
+//@   pure
+//@ func (github.com/tmpim/casket/caskethttp/staticfiles.FileServer).IsHidden
+//@   pure
+//@ func isSymlinkTargetDir
+//@ func isSymlink
+//@ extern (*net/url.URL).String
+
+//@ define shown(k int) bool = exists(j, 0, len(files), !config.Fs.IsHidden(files[j]) && fileInfos[k].Name == files[j].Name())
+//@ func directoryListing
+//@   requires config != nil && forall(j, 0, len(files), files[j] != nil)
+//@   ensures [no_hidden_listed] forall(k, 0, len(result0.Items), exists(j, 0, len(files), !config.Fs.IsHidden(files[j]) && result0.Items[k].Name == files[j].Name()))
+//@   loop 1 invariant 0 <= #i && #i <= len(files) && forall(k, 0, len(fileInfos), exists(j, 0, #i, !config.Fs.IsHidden(files[j]) && fileInfos[k].Name == files[j].Name()))
+
+//@ unit archive_walk props=C02 filter=`browse\.Browse\)\.ServeArchive\$2$`
+//@ func (github.com/tmpim/casket/caskethttp/staticfiles.FileServer).IsHidden
+//@   pure
+//@ extern invoke:(io/fs.FileInfo).Mode
+//@   pure
+//@ extern invoke:(github.com/mholt/archiver/v3.Writer).Write
+//@ func (Browse).ServeArchive$2
+//@   requires bc != nil
+//@   at call invoke:(github.com/mholt/archiver/v3.Writer).Write assert [archive_sink_not_hidden] !bc.Fs.IsHidden(info)
